@@ -86,8 +86,7 @@ Proof. intros. apply lrem_In. Qed.
 Lemma calc_size_pos : forall v, 0 <= v -> 1 <= calc_size v.
 Proof.
   intros v Hv. unfold calc_size. destruct (Z.eqb_spec v 0); [lia|].
-  destruct (Z.ltb_spec v 0); [lia|]. destruct (v <? 2 ^ 62); [|lia].
-  pose proof (Z.log2_nonneg v). lia.
+  destruct (Z.ltb_spec v 0); [lia|]. pose proof (Z.log2_nonneg v). lia.
 Qed.
 
 Lemma esize_of_pos : forall mn mx, 0 <= mx -> 1 <= esize_of mn mx.
@@ -99,12 +98,9 @@ Lemma calc_size_mono : forall a b, 0 <= a -> a <= b -> calc_size a <= calc_size 
 Proof.
   intros a b Ha Hab. unfold calc_size.
   destruct (Z.eqb_spec a 0) as [->|Na].
-  - destruct (Z.eqb_spec b 0); [lia|]. destruct (Z.ltb_spec b 0); [lia|].
-    destruct (b <? 2 ^ 62); [pose proof (Z.log2_nonneg b); lia|lia].
+  - destruct (Z.eqb_spec b 0); [lia|]. destruct (Z.ltb_spec b 0); [lia|]. pose proof (Z.log2_nonneg b); lia.
   - destruct (Z.eqb_spec b 0); [lia|]. destruct (Z.ltb_spec a 0); [lia|]. destruct (Z.ltb_spec b 0); [lia|].
-    destruct (Z.ltb_spec a (2 ^ 62)); destruct (Z.ltb_spec b (2 ^ 62)); try lia.
-    + pose proof (Z.log2_le_mono a b Hab). lia.
-    + assert (Z.log2 a < 62) by (apply Z.log2_lt_pow2; lia). lia.
+    pose proof (Z.log2_le_mono a b Hab). lia.
 Qed.
 
 Lemma esize_of_mono : forall mn a b, 0 <= a -> a <= b -> esize_of mn a <= esize_of mn b.
@@ -746,7 +742,7 @@ Qed.
 
 Lemma inv_resize : forall s m n, InvA s -> InvA (fst (step_resize s m n)).
 Proof.
-  intros s m n H. unfold step_resize. destruct (n <? 0); [exact H|]. destruct (gbytes s m =? n); [exact H|].
+  intros s m n H. unfold step_resize. destruct (n <? 0); [exact H|]. destruct (gbytes s m =? n); [exact H|]. destruct (2 ^ 60 - 1 <? n); [exact H|].
   destruct (verify_resize (sz s) (rel s) (glsize s m) (glay s m) (n * 8)) eqn:Ev; [exact H|]. cbn [fst].
   constructor; cbn.
   - intros [m'|u g]; cbn [lay lsz]; cbn.
